@@ -135,3 +135,107 @@ package presign
 //@   ensures[C03] result == nil ==> typeis(msg.Content, *broadcast7) && body != nil && ptval(body.S) != p_id() && lastresult(Verify) && r.S[msg.From] == body.S && r.PresignatureID[msg.From] == body.PresignatureID
 //@   assert_at[C03,C19] Decommit "Decommit(r.CommitmentID[from], body.DecommitmentID, body.PresignatureID)": arg1 == r.CommitmentID[msg.From] && arg2 == body.DecommitmentID && len(arg3) == 1
 //@   assert_at[C03] Verify "if !body.Proof.Verify(r.HashForID(from), zkelog.Public{": arg2.E == r.ElGamalChi[msg.From] && arg2.ElGamalPublic == r.ElGamal[msg.From] && arg2.Base == r.R && arg2.Y == body.S && lastresult(Decommit)
+
+// ---- Finalize methods (C05): with the state the previous rounds stored (every signer's entries present -- the handler
+// finalizes a round only after all its messages were stored, C07 -- and of the shapes the acceptance gates let
+// through) nothing panics; sampled masks stay inside Paillier's plaintext range.
+//@ pred psall(r *presign1) := forall(j, party.ID, inslice(r.Helper.partyIDs, j) ==> psparty(r, j)) && inslice(r.Helper.partyIDs, r.Helper.info.SelfID) && forall(x, party.ID, inslice(r.Helper.otherPartyIDs, x) ==> inslice(r.Helper.partyIDs, x)) && paillier.skwf(r.SecretPaillier) && r.SecretECDSA != nil && r.SecretElGamal != nil
+//@ func (*presign1).Finalize
+//@   nopanic[C05]
+//@   use bits
+//@   requires ps1ok(r) && psall(r) && out != nil && !closed(out)
+//@ func (*presign2).Finalize
+//@   nopanic[C05]
+//@   use bits
+//@   requires ps2ok(r) && psall(r.presign1) && out != nil && !closed(out) && r.GammaShare != nil && r.GNonce != nil
+//@   requires forall(j, party.ID, inslice(r.Helper.partyIDs, j) ==> (r.K[j] != nil && r.K[j].c != nil && r.G[j] != nil && r.G[j].c != nil))
+//@ func (*presign3).Finalize
+//@   nopanic[C05]
+//@   requires ps3ok(r) && psall(r.presign1) && out != nil && !closed(out) && r.GammaShare != nil && r.KShare != nil && r.DeltaShareBeta != nil && r.ChiShareBeta != nil
+//@   requires forall(j, party.ID, inslice(r.Helper.otherPartyIDs, j) ==> (r.DeltaCiphertext[j] != nil && r.ChiCiphertext[j] != nil && r.DeltaShareBeta[j] != nil && r.ChiShareBeta[j] != nil))
+//@   loop 1: invariant ps3ok(r)
+//@   loop 1: invariant paillier.skwf(r.SecretPaillier) && r.SecretECDSA != nil
+//@   loop 1: invariant DeltaShare != nil && ChiShare != nil && fresh(DeltaShare) && fresh(ChiShare)
+//@   loop 1: invariant DeltaSharesAlpha != nil && ChiSharesAlpha != nil && fresh(DeltaSharesAlpha) && fresh(ChiSharesAlpha) && KShareInt != nil
+//@   loop 1: invariant culprits == nil || fresh(culprits)
+// (a session continues past round 3 only if every peer's ciphertexts for us decrypted, i.e. validated under our key;
+// the abort branches of rounds 6 and 7 open exactly these ciphertexts again and state that as their precondition
+// `psopen`. The loop invariant that would carry this fact out of the decryption loop is not discharged by the solvers
+// within the budget -- nested map reads under a quantifier plus number updates --, so the link is stated, not proved.)
+//@   loop 1: invariant DeltaSharesAlpha != r.DeltaShareBeta && DeltaSharesAlpha != r.ChiShareBeta && ChiSharesAlpha != r.DeltaShareBeta && ChiSharesAlpha != r.ChiShareBeta
+//@   loop 1: invariant forall(j, party.ID, inslice(r.Helper.otherPartyIDs, j) ==> r.DeltaCiphertext[j] != nil)
+//@   loop 1: invariant forall(j, party.ID, inslice(r.Helper.otherPartyIDs, j) ==> r.ChiCiphertext[j] != nil)
+//@   loop 1: invariant forall(j, party.ID, inslice(r.Helper.otherPartyIDs, j) ==> r.DeltaShareBeta[j] != nil)
+//@   loop 1: invariant forall(j, party.ID, inslice(r.Helper.otherPartyIDs, j) ==> r.ChiShareBeta[j] != nil)
+//@ func (*presign4).Finalize
+//@   nopanic[C05]
+//@   use bits
+//@   requires ps4ok(r) && psall(r.presign1) && out != nil && !closed(out) && r.GammaShare != nil && r.GNonce != nil && r.G[r.Helper.info.SelfID] != nil && r.G[r.Helper.info.SelfID].c != nil
+//@ func (*presign5).Finalize
+//@   nopanic[C05]
+//@   requires ps5ok(r) && psall(r.presign1) && out != nil && !closed(out) && r.KShare != nil && r.ElGamalKNonce != nil
+//@   requires forall(j, party.ID, indom(r.BigGammaShare, j) ==> r.BigGammaShare[j] != nil)
+//@   requires r.ElGamalK[r.Helper.info.SelfID] != nil && r.ElGamalK[r.Helper.info.SelfID].L != nil && r.ElGamalK[r.Helper.info.SelfID].M != nil
+//@   loop 1: invariant Gamma != nil
+// opening a ciphertext for an abort message: the ciphertext must validate under our key (then decryption with
+// randomness cannot fail; its error is ignored by the code)
+//@ func proveNth
+//@   nopanic[C05]
+//@   requires hash != nil && hash.h != nil && paillier.skwf(paillierSecret) && paillier.ctvalid(paillierSecret.PublicKey, c)
+//@   modifies hstate(hash), wlog(hash.h)
+//@   allocates
+//@   ensures result != nil
+//@ pred psopen(r *presign3) := forall(j, party.ID, inslice(r.Helper.otherPartyIDs, j) ==> (r.DeltaCiphertext[j] != nil && r.ChiCiphertext[j] != nil && paillier.ctvalid(r.SecretPaillier.PublicKey, r.DeltaCiphertext[j][r.Helper.info.SelfID]) && paillier.ctvalid(r.SecretPaillier.PublicKey, r.ChiCiphertext[j][r.Helper.info.SelfID]))) && paillier.ctvalid(r.SecretPaillier.PublicKey, r.K[r.Helper.info.SelfID])
+//@ func (*presign6).Finalize
+//@   nopanic[C05]
+//@   requires ps6ok(r) && psall(r.presign1) && psopen(r.presign3) && out != nil && !closed(out) && r.KShare != nil && r.ChiShare != nil && r.GammaShare != nil && r.ElGamalChiNonce != nil
+//@   requires forall(j, party.ID, indom(r.DeltaShares, j) ==> r.DeltaShares[j] != nil) && forall(j, party.ID, indom(r.BigDeltaShares, j) ==> r.BigDeltaShares[j] != nil)
+//@   requires r.ElGamalChi[r.Helper.info.SelfID] != nil && r.ElGamalChi[r.Helper.info.SelfID].L != nil && r.ElGamalChi[r.Helper.info.SelfID].M != nil
+//@   loop 1: invariant Delta != nil
+//@   loop 2: invariant BigDeltaActual != nil
+//@   loop 3: invariant ps6ok(r) && psall(r.presign1) && psopen(r.presign3) && DeltaProofs != nil
+//@   loop 4: invariant RBar != nil && DeltaInv != nil
+//@ func (*presign7).Finalize
+//@   nopanic[C05]
+//@   requires ps7ok(r) && psall(r.presign1) && psopen(r.presign3) && out != nil && !closed(out) && r.KShare != nil && r.ChiShare != nil && r.ElGamalChiNonce != nil && r.PublicKey != nil && r.RBar != nil && r.ChiShareAlpha != nil
+//@   requires forall(j, party.ID, indom(r.S, j) ==> r.S[j] != nil) && forall(j, party.ID, indom(r.RBar, j) ==> r.RBar[j] != nil) && forall(j, party.ID, indom(r.PresignatureID, j) ==> len(r.PresignatureID[j]) == 32) && forall(j, party.ID, indom(r.ChiShareAlpha, j) ==> r.ChiShareAlpha[j] != nil)
+//@   requires r.Message != nil ==> len(r.Message) > 0
+//@   loop 1: invariant PublicKeyComputed != nil
+//@   loop 2: invariant len(presignatureID) == 32
+//@   loop 3: invariant ps7ok(r) && psall(r.presign1) && psopen(r.presign3) && ChiProofs != nil && YHat != nil && YHatProof != nil
+//@   loop 4: invariant ChiAlphas != nil
+//@ func (*sign1).Finalize
+//@   nopanic[C05]
+//@   requires r != nil && r.Helper != nil && out != nil && !closed(out) && r.PreSignature != nil && r.PreSignature.R != nil && r.PreSignature.KShare != nil && r.PreSignature.ChiShare != nil && len(r.Message) > 0
+//@ func (*sign2).Finalize
+//@   nopanic[C05]
+//@   requires r != nil && r.sign1 != nil && r.Helper != nil && r.PublicKey != nil && len(r.Message) > 0 && r.SigmaShares != nil
+//@   requires r.PreSignature != nil && r.PreSignature.R != nil && r.PreSignature.RBar != nil && r.PreSignature.S != nil
+//@   requires forall(j, party.ID, indom(r.SigmaShares, j) ==> r.SigmaShares[j] != nil)
+//@   requires forall(j, party.ID, indom(r.PreSignature.RBar.Points, j) ==> (r.PreSignature.RBar.Points[j] != nil && r.PreSignature.S.Points[j] != nil && r.SigmaShares[j] != nil))
+// the culprit arithmetic of the abort rounds: every party's opened values are present (the Store gates refuse
+// incomplete abort messages; our own entries come from round 3)
+//@ func (*abort1).Finalize
+//@   nopanic[C05]
+//@   requires r != nil && ps6ok(r.presign6) && r.KShares != nil && r.GammaShares != nil && r.DeltaAlphas != nil
+//@   requires forall(x, party.ID, inslice(r.Helper.otherPartyIDs, x) ==> inslice(r.Helper.partyIDs, x))
+//@   requires forall(j, party.ID, inslice(r.Helper.partyIDs, j) ==> (r.KShares[j] != nil && r.GammaShares[j] != nil && r.DeltaShares[j] != nil && r.DeltaAlphas[j] != nil))
+//@   requires forall(j, party.ID, forall(l, party.ID, (inslice(r.Helper.partyIDs, j) && inslice(r.Helper.partyIDs, l) && l != j) ==> r.DeltaAlphas[j][l] != nil))
+//@   loop 1: invariant r != nil && ps6ok(r.presign6) && culprits == nil || fresh(culprits)
+//@   loop 1: invariant forall(j, party.ID, inslice(r.Helper.partyIDs, j) ==> (r.KShares[j] != nil && r.GammaShares[j] != nil && r.DeltaShares[j] != nil && r.DeltaAlphas[j] != nil))
+//@   loop 1: invariant forall(j, party.ID, forall(l, party.ID, (inslice(r.Helper.partyIDs, j) && inslice(r.Helper.partyIDs, l) && l != j) ==> r.DeltaAlphas[j][l] != nil))
+//@   loop 2: invariant r != nil && ps6ok(r.presign6) && culprits == nil || fresh(culprits)
+//@   loop 2: invariant forall(j, party.ID, inslice(r.Helper.partyIDs, j) ==> (r.KShares[j] != nil && r.GammaShares[j] != nil && r.DeltaShares[j] != nil && r.DeltaAlphas[j] != nil))
+//@   loop 2: invariant forall(j, party.ID, forall(l, party.ID, (inslice(r.Helper.partyIDs, j) && inslice(r.Helper.partyIDs, l) && l != j) ==> r.DeltaAlphas[j][l] != nil))
+//@ func (*abort2).Finalize
+//@   nopanic[C05]
+//@   requires r != nil && ps7ok(r.presign7) && r.KShares != nil && r.YHat != nil && r.ChiAlphas != nil
+//@   requires forall(x, party.ID, inslice(r.Helper.otherPartyIDs, x) ==> inslice(r.Helper.partyIDs, x))
+//@   requires forall(j, party.ID, inslice(r.Helper.partyIDs, j) ==> (r.KShares[j] != nil && r.YHat[j] != nil && r.ECDSA[j] != nil && r.ChiAlphas[j] != nil && r.ElGamalChi[j] != nil && r.ElGamalChi[j].M != nil))
+//@   requires forall(j, party.ID, forall(l, party.ID, (inslice(r.Helper.partyIDs, j) && inslice(r.Helper.partyIDs, l) && l != j) ==> r.ChiAlphas[j][l] != nil))
+//@   loop 1: invariant culprits == nil || fresh(culprits)
+//@   loop 2: invariant (culprits == nil || fresh(culprits)) && M != nil && inslice(r.Helper.partyIDs, j)
+//@   loop 1: invariant forall(j, party.ID, inslice(r.Helper.partyIDs, j) ==> (r.KShares[j] != nil && r.YHat[j] != nil && r.ECDSA[j] != nil && r.ChiAlphas[j] != nil && r.ElGamalChi[j] != nil && r.ElGamalChi[j].M != nil))
+//@   loop 1: invariant forall(j, party.ID, forall(l, party.ID, (inslice(r.Helper.partyIDs, j) && inslice(r.Helper.partyIDs, l) && l != j) ==> r.ChiAlphas[j][l] != nil))
+//@   loop 2: invariant forall(j, party.ID, inslice(r.Helper.partyIDs, j) ==> (r.KShares[j] != nil && r.YHat[j] != nil && r.ECDSA[j] != nil && r.ChiAlphas[j] != nil && r.ElGamalChi[j] != nil && r.ElGamalChi[j].M != nil))
+//@   loop 2: invariant forall(j, party.ID, forall(l, party.ID, (inslice(r.Helper.partyIDs, j) && inslice(r.Helper.partyIDs, l) && l != j) ==> r.ChiAlphas[j][l] != nil))
